@@ -343,10 +343,9 @@ func runPair(ephA, seedA, ephB, seedB []byte) (ra, rb hsResult, wab, wba *wire, 
 	kb := gnoed.GenPrivKeyFromSecret(seedB)
 	ca, cb := make(chan hsResult, 1), make(chan hsResult, 1)
 	go func() {
+		// no close on failure: async.Parallel returns at the first failing task, the
+		// sibling task may still be about to write; closing here would race with it
 		sc, err := conn.MakeSecretConnection(duplex{r: wba, w: wab}, ka)
-		if err != nil {
-			wab.close()
-		}
 		ca <- hsResult{sc, err}
 	}()
 	// A draws its ephemeral key before it writes: wait for its first message
@@ -356,9 +355,6 @@ func runPair(ephA, seedA, ephB, seedB []byte) (ra, rb hsResult, wab, wba *wire, 
 	}
 	go func() {
 		sc, err := conn.MakeSecretConnection(duplex{r: wab, w: wba}, kb)
-		if err != nil {
-			wba.close()
-		}
 		cb <- hsResult{sc, err}
 	}()
 	got := 0
